@@ -118,7 +118,9 @@ func VxC12_Spelling() {
 	if vxChoice("swap", 2) == 1 {
 		e1, e2 = e2, e1
 	}
-	ext := [...]string{"", "x", "x=y", "x=\"a,b\"", "community=\"UCI\""}[vxChoice("ext", 5)]
+	// (the last two carry quoted-pairs: an escaped quote followed by a comma, and a value
+	// that ends in an escaped backslash)
+	ext := [...]string{"", "x", "x=y", "x=\"a,b\"", "community=\"UCI\"", "x=\"a\\\",b\"", "x-root=\"C:\\\\\""}[vxChoice("ext", 7)]
 	sep := vxOWS("ws1") + "," + vxOWS("ws2")
 	if vxChoice("empty", 2) == 1 {
 		sep = " , ," + sep
@@ -168,4 +170,32 @@ func VxC12_Overflow() {
 	vxAssert(d >= 0, "C12/negative-duration")
 	vxAssert(vxImplies(vxZLeq(big, z), int64(d) >= vxTwo31*vxSecond), "C12/large-value-not-at-least-2^31")
 	vxAssert(vxImplies(vxZLess(z, big), vxZEq(vxZOf(int64(d)), vxZMulK(z, vxSecond))), "C12/small-value-not-exact")
+}
+
+// vxZeroClk: a clock for which no time passes (Since = 0).
+type vxZeroClk struct{}
+
+func (vxZeroClk) Now() time.Time                  { return time.Time{} }
+func (vxZeroClk) Since(t time.Time) time.Duration { return 0 }
+
+// VxC12_Window: a huge stale-if-error argument acts as a window of at least 2^31 seconds
+// where it is consumed, not only where it is parsed: CanStaleOnError with arbitrary age
+// and lifetime (any non-negative int64 nanoseconds) and every argument of 1..21 digits.
+func VxC12_Window() {
+	n := 1 + vxChoice("len", 21)
+	ds := vxDigits("sie", n)
+	age := vxInt64("age")
+	life := vxInt64("life")
+	vxAssume(age >= 0 && life >= 0)
+	f := &Freshness{IsStale: true, Age: &Age{Value: time.Duration(age)}, UsefulLife: time.Duration(life)}
+	cc := CCResponseDirectives{"stale-if-error": ds}
+	got := NewStaleIfErrorPolicy(vxZeroClk{}).CanStaleOnError(f, cc)
+	z, _ := vxZDigits(ds)
+	staleFor := vxZSub(vxZOf(age), vxZOf(life))
+	exact := vxZMulK(z, vxSecond)
+	clamped := vxZMulK(vxZMin(z, vxZOf(vxTwo31)), vxSecond)
+	vxCover("C12/window")
+	// inside the window under every admitted reading => allowed; outside under every reading => refused
+	vxAssert(vxImplies(vxZLess(staleFor, clamped), got), "C12/huge-window-refuses")
+	vxAssert(vxImplies(vxZLess(exact, staleFor), !got), "C12/window-exceeded-but-allowed")
 }
